@@ -37,7 +37,11 @@ PROPS["C05"] = {
         "pkg": "command",
         "tests": [T("TestC05Fillers", {"checks": 6000}, {"checks": 25000, "shards": 8}),
                   T("TestC05Spoofed", {"checks": 12, "shards": 3, "env": {"C05_FILLS": 150000}},
-                    {"checks": 40, "shards": 8, "env": {"C05_FILLS": 400000}})],
+                    {"checks": 40, "shards": 8, "env": {"C05_FILLS": 400000}}),
+                  T("TestC05Commands", {"checks": 250, "shards": 4}, {"checks": 3000, "shards": 16})],
+    }, {
+        "pkg": "command", "race": True,
+        "tests": [T("TestC05Concurrent", {"checks": 25, "shards": 4, "gomaxprocs": [16, 4, 2, 16]}, {"checks": 250, "shards": 16, "gomaxprocs": [16, 4, 2, 16]})],
     }],
 }
 
